@@ -440,6 +440,34 @@ def cold_process_part(ctx):
     conns = {k: engine.connection(ledger=v.loaded) for k, v in leds.items()}
     stmts = rng.sample(COLD_STATEMENTS, ctx.pick(24, len(COLD_STATEMENTS)))
     jobs = [[i, k, t] for i, (k, t) in enumerate((k, t) for t in stmts for k in ('A', 'B'))]
+    # the named queries of the ledgers: run through a shell session (`.run name` closes the period at the directive's date
+    # on the statement it executes) before the very same texts are executed on the long-lived connections
+    import contextlib
+    import io
+    import tempfile
+    from beancount.core import data
+    from beanquery import shell
+    for k, led in leds.items():
+        named = [e for e in led.entries if isinstance(e, data.Query)]
+        if not named:
+            continue
+        fd, path = tempfile.mkstemp(suffix='.beancount', prefix='bqv-c09-')
+        os.close(fd)
+        try:
+            with open(path, 'w') as f:
+                f.write(led.text)
+            with contextlib.redirect_stdout(io.StringIO()), contextlib.redirect_stderr(io.StringIO()):
+                sh = shell.BQLShell(path, io.StringIO(), interactive=False, runinit=False, format='csv')
+                for e in named:
+                    try:
+                        sh.onecmd(f'.run {e.name}')
+                        ctx.count('obs.cold_named_queries_run_in_shell')
+                    except Exception:  # noqa: BLE001
+                        pass
+        finally:
+            os.unlink(path)
+        for e in named:
+            jobs.append([len(jobs), k, e.query_string])
     rng.shuffle(jobs)
     for j, (jid, k, t) in enumerate(jobs):
         jobs[j][0] = j
